@@ -29,20 +29,21 @@ Print Assumptions C32_frame_partial.
 
 (* No cross-thread pollution, in every schedule: whatever is in thread u's trace was recorded by u. *)
 Theorem C32_no_pollution_trace_partial : forall g im sched u e,
-  In e (trace (loc (run (init_state g im) sched) u)) -> In e im \/ In (Probe u e) sched.
+  In e (trace (loc (run (init_state g im) sched) u)) ->
+  In e im \/ exists a, In a sched /\ (a = Probe u e \/ a = HookEnd u e).
 Proof. exact no_pollution_trace. Qed.
 Print Assumptions C32_no_pollution_trace_partial.
 
 (* ... and so is whatever is in the result the executor returned for u's test. *)
 Theorem C32_no_pollution_result_partial : forall g im sched u l,
   results (run (init_state g im) sched) u = Some (ROk l) ->
-  forall e, In e l -> In e im \/ In (Probe u e) sched.
+  forall e, In e l -> In e im \/ exists a, In a sched /\ (a = Probe u e \/ a = HookEnd u e).
 Proof. exact no_pollution_result. Qed.
 Print Assumptions C32_no_pollution_result_partial.
 
 Theorem C32_foreign_events_never_added_partial : forall g im sched u l e,
   results (run (init_state g im) sched) u = Some (ROk l) ->
-  ~ In e im -> ~ In (Probe u e) sched -> ~ In e l.
+  ~ In e im -> ~ In (Probe u e) sched -> ~ In (HookEnd u e) sched -> ~ In e l.
 Proof. exact foreign_events_never_added. Qed.
 Print Assumptions C32_foreign_events_never_added_partial.
 
@@ -71,22 +72,51 @@ Print Assumptions C32_zombie_check_dies_partial.
 (* ... which is its situation after the main thread's stop() and after any later test entered the
    tracer; from then on its trace never grows, in every continuation of the schedule. *)
 Theorem C32_abandoned_records_nothing_partial : forall s t sched,
-  st (loc s t) <> Fresh -> ~ In (Enter t) sched ->
+  st (loc s t) <> Fresh -> ~ In (Enter t) sched -> (forall e, ~ In (HookEnd t e) sched) ->
   trace (loc (run (step s Stop) sched) t) = trace (loc s t).
 Proof. exact abandoned_records_nothing. Qed.
 Print Assumptions C32_abandoned_records_nothing_partial.
 
 Theorem C32_superseded_records_nothing_partial : forall s t t' sched,
   t' <> t -> st (loc s t) <> Fresh -> is_live (loc s t') = true -> ~ In (Enter t) sched ->
+  (forall e, ~ In (HookEnd t e) sched) ->
   trace (loc (run (step s (Enter t')) sched) t) = trace (loc s t).
 Proof. exact superseded_records_nothing. Qed.
 Print Assumptions C32_superseded_records_nothing_partial.
 
-Theorem C32_dead_is_frozen_partial : forall s t sched,
-  st (loc s t) <> Fresh -> is_live (loc s t) = false ->
-  trace (loc (run s sched) t) = trace (loc s t) /\ is_live (loc (run s sched) t) = false.
+Theorem C32_dead_is_frozen_partial : forall s t sched, dead (loc s t) = true ->
+  trace (loc (run s sched) t) = trace (loc s t) /\ dead (loc (run s sched) t) = true.
 Proof. exact dead_is_frozen. Qed.
 Print Assumptions C32_dead_is_frozen_partial.
+
+(* Schedule points INSIDE a predicate callback (HookBegin = gate + temporarily_disable, then an operator of
+   the code under test runs, HookEnd = enable + record).  A thread abandoned while it is blocked in such an
+   operator completes the recording when it resumes: the event goes to ITS OWN trace only — no other
+   thread's state, no result, no tracer-wide state changes — and its next gate aborts it. *)
+Theorem C32_pending_hook_records_locally_partial : forall s t e,
+  st (loc s t) = InHook ->
+  trace (loc (step s (HookEnd t e)) t) = trace (loc s t) ++ [e]
+  /\ (forall u, u <> t -> loc (step s (HookEnd t e)) u = loc s u)
+  /\ results (step s (HookEnd t e)) = results s
+  /\ current (step s (HookEnd t e)) = current s
+  /\ imp (step s (HookEnd t e)) = imp s.
+Proof. exact pending_hook_records_locally. Qed.
+Print Assumptions C32_pending_hook_records_locally_partial.
+
+Theorem C32_resumed_zombie_dies_partial : forall s t e e', zombie s t -> st (loc s t) = InHook ->
+  let s1 := step s (HookEnd t e) in
+  st (loc (step s1 (HookBegin t)) t) = Aborting
+  /\ st (loc (step s1 (Probe t e')) t) = Aborting
+  /\ trace (loc (step s1 (Probe t e')) t) = trace (loc s t) ++ [e].
+Proof. exact resumed_zombie_dies. Qed.
+Print Assumptions C32_resumed_zombie_dies_partial.
+
+(* the zombie invariant (started, and not current while it can act) survives every continuation in which
+   the thread does not re-enter the tracer, pending hook completions included *)
+Theorem C32_zombie_invariant_partial : forall sched s t,
+  zombie s t -> ~ In (Enter t) sched -> zombie (run s sched) t.
+Proof. exact zombie_run_inv. Qed.
+Print Assumptions C32_zombie_invariant_partial.
 
 (* Model time of TestCaseExecutor.execute: bounded by timeout + grace, timeout reported for every thread
    that did not finish in time, in particular for every non-terminating one. *)
